@@ -202,8 +202,32 @@ def analyse_function(rep: Report) -> tuple[str, str]:
                     defs = [a for a in ast.walk(fn) if isinstance(a, (ast.Assign, ast.AnnAssign))
                             and a.value is not None
                             and norm(a.targets[0] if isinstance(a, ast.Assign) else a.target) == v]
-                    if defs and all(re.search(r"headers\.get\(['\"]range['\"]", norm(d.value), re.I) for d in defs):
-                        in_absent = True
+                    # the definition that reaches this exit (the last one before it in source order of the
+                    # normal form; a later reassignment would have retracted the None fact) reads the header
+                    from ..core import dfs_order
+                    order = dfs_order(fn)
+                    before = [d for d in defs if order.get(id(d), 1 << 30) < order.get(id(st), -1)]
+                    if before:
+                        last = max(before, key=lambda d: order[id(d)])
+                        if re.search(r"headers\.get\(['\"]range['\"]", norm(last.value), re.I):
+                            in_absent = True
+            # ... or under `not self.has_http_range()`, where has_http_range() is the membership test
+            if not in_absent:
+                child = st
+                for a in ancestors(st):
+                    if isinstance(a, ast.If):
+                        t = norm(a.test)
+                        in_body = any(child is b for b in a.body)
+                        in_else = any(child is b for b in a.orelse)
+                        if (t == 'not self.has_http_range()' and in_body) or \
+                                (t == 'self.has_http_range()' and in_else):
+                            hh = find_func(enclosing_class(fn), 'has_http_range') if enclosing_class(fn) is not None else None
+                            if hh is not None and re.search(r"return\s+['\"]range['\"] in flask\.request\.headers",
+                                                            ast.unparse(hh), re.I):
+                                in_absent = True
+                    child = a
+                    if a is fn:
+                        break
             if in_absent:
                 rep.ok('R13.1', construct, 'no-range exit only when the header is absent')
             else:
@@ -353,6 +377,12 @@ def analyse_callers(rep: Report) -> None:
                 if isinstance(a, ast.Assign):
                     asg = a
                     break
+            if asg is not None and isinstance(asg.targets[0], ast.Name):
+                # kept in one local first and unpacked later: byte_range = ..; start, end, .. = byte_range
+                later = [a for a in ast.walk(fn) if isinstance(a, ast.Assign) and isinstance(a.value, ast.Name)
+                         and a.value.id == asg.targets[0].id and isinstance(a.targets[0], ast.Tuple)]
+                if len(later) == 1:
+                    asg = later[0]
             if asg is None or not isinstance(asg.targets[0], ast.Tuple) \
                     or len(asg.targets[0].elts) != 4:
                 raise AnalysisError(f'{construct}: result of get_http_range is not unpacked '
